@@ -492,8 +492,59 @@ def r8_expected_type_context(repo):
             ok = any(g.dominates(g.node(sv), g.node(st)) for sv in saves)
             obs.append(Ob("C03-R8", "%s:set@%d:protected-by-a-save" % (name, st.lineno - fn.lineno), _w(m, st), ok,
                           "`%s` changes the expected-type context without saving the previous value first" % src(st)[:60]))
+    # sub-expressions in a non-result position (a receiver, a condition, the operands of a logical / equality /
+    # comparison expression, the object of a field access) have nothing to do with the type expected of the whole
+    # expression: they are visited with the expected type cleared
+    n_sites = 0
+    for name, m in sorted(cls.methods.items()):
+        fn = m.node
+        g = cfg_of(fn)
+        stores = [n for n in iter_own_nodes(fn) if isinstance(n, ast.Assign) and src(n.targets[0]) == "self._exp_type"]
+        for c in calls_in(fn):
+            cn = call_name(c) or ""
+            arg = src(c.args[0]) if c.args else ""
+            non_result = (cn == "visit" and arg.split(".")[-1] in ("receiver", "cond") and arg.startswith(m.params[1] + ".")) or \
+                (src(c.func).startswith("super().visit_") and cn in ("visit_logical_expr", "visit_equality_expr",
+                                                                      "visit_comparison_expr", "visit_field_access"))
+            if not non_result:
+                continue
+            n_sites += 1
+            before = [s_ for s_ in stores if g.dominates(g.node(s_), g.node(c))]
+            last = max(before, key=lambda s_: s_.lineno) if before else None
+            later = [s_ for s_ in stores if last is not None and s_ is not last and s_.lineno > last.lineno and
+                     s_.lineno < c.lineno and g.path_exists_avoiding(g.node(s_), g.node(c), [])]
+            ok = last is not None and const_value(last.value, 1) is None and not later
+            obs.append(Ob("C03-R8", "%s:non-result-child:%s" % (name, " ".join(src(c).split())[:40]), _w(m, c), ok,
+                          "`%s` visits a sub-expression in a non-result position; it must run under `self._exp_type = None` "
+                          "(nearest dominating store: %s)" % (src(c)[:40], src(last) if last is not None else "none")))
+    obs.append(Ob("C03-R8", "non-result-child-visits>=6", "src/analysis/type_dependency_analysis.py", n_sites >= 6,
+                  "%d visits of receivers / conditions / operands found" % n_sites))
     if n_pairs < 6:
         raise AnalysisError("only %d save/restore pairs of _exp_type found" % n_pairs, rule="C03-R8", anchor=cls.qualname)
+    return obs
+
+
+def r9_inferred_types_are_own(repo, rule="C03-R9"):
+    """A plain inferred type node (`_inferred_nodes[..].append(TypeNode(T, None))`) says "this expression has type T by
+    itself".  T must come from the visited node (or a looked-up declaration / the builtin factory), never from the
+    analysis' own state: the expected type of the context is what the surroundings demand, and an inferred edge made
+    from it makes every declared type around the expression look inferable."""
+    obs = []
+    cls = repo.cls(TDA + ".TypeDependencyAnalysis")
+    for name, m in sorted(cls.methods.items()):
+        for c in calls_in(m.node):
+            if not (call_name(c) == "append" and isinstance(c.func, ast.Attribute) and
+                    "_inferred_nodes" in src(c.func.value) and c.args and isinstance(c.args[0], ast.Call) and
+                    call_name(c.args[0]) == "TypeNode" and c.args[0].args):
+                continue
+            t = c.args[0].args[0]
+            leaves = Prov(m.node).sources(t)
+            bad = [src(l) for l in leaves if isinstance(l, ast.Attribute) and attr_chain(l)[0] == "self"]
+            bad += [str(l) for l in leaves if isinstance(l, tuple) and l[0] in ("free", "unknown", "opaque")]
+            obs.append(Ob(rule, "%s:inferred-type-node:%s" % (name, " ".join(src(t).split())[:50]), _w(m, c), not bad,
+                          "the type of an inferred type node must derive from the visited node, a declaration or the "
+                          "builtin factory; it reads analysis state: %s (all sources: %s)"
+                          % (bad, [src(l) if isinstance(l, ast.AST) else l for l in leaves][:5])))
     return obs
 
 
@@ -506,6 +557,7 @@ def rules():
         RuleSpec("C03-R5", "visitors return their node (identity rewrite)", 5, r5_identity_visitors),
         RuleSpec("C03-R6", "what is omittable", 7, r6_omittable),
         RuleSpec("C03-R7", "shape of the feasibility test (verification passes)", 4, r7_feasibility_shape),
+        RuleSpec("C03-R9", "inferred type nodes carry the expression's own type", 12, r9_inferred_types_are_own),
         RuleSpec("C03-R8", "expected-type context of the analysis: save / set / restore around sub-visits", 12, r8_expected_type_context),
     ]
 
